@@ -355,12 +355,14 @@ pub fn c14() -> Outcome {
         if s.len() == 4 && n % 997 == 0 { note(|| format!("(relax?, id) sequence {s:?}")); }
         let mut i = base.clone();
         let mut active: Vec<u64> = vec![1, 2, 3]; let mut removed: Vec<u64> = vec![];
+        let mut reasons: HashMap<u64, (String, HashMap<String, String>)> = HashMap::new();
         for (k, (relax, id)) in s.iter().enumerate() {
             let before = i.clone();
-            let r = if *relax { i.relax_constraint(*id, format!("r{k}"), HashMap::new()) } else { i.restore_constraint(*id) };
+            let params: HashMap<String, String> = [("step".to_string(), format!("p{k}"))].into_iter().collect();
+            let r = if *relax { i.relax_constraint(*id, format!("r{k}"), params.clone()) } else { i.restore_constraint(*id) };
             let (from, to) = if *relax { (&mut active, &mut removed) } else { (&mut removed, &mut active) };
             let expect_ok = from.contains(id);
-            if expect_ok { from.retain(|x| x != id); to.push(*id); }
+            if expect_ok { from.retain(|x| x != id); to.push(*id); if *relax { reasons.insert(*id, (format!("r{k}"), params.clone())); } else { reasons.remove(id); } }
             if r.is_ok() != expect_ok { return Outcome { cases: n, distinct: d.len(), fail: Some(format!("sequence {s:?} step {k}: result ok={} but expected ok={expect_ok}", r.is_ok())) }; }
             if !expect_ok && i != before { return Outcome { cases: n, distinct: d.len(), fail: Some(format!("sequence {s:?} step {k}: the failing operation changed the instance (active {:?}, removed {:?})", i.constraints.iter().map(|c| c.id).collect::<Vec<_>>(), i.removed_constraints.iter().filter_map(|c| c.constraint.as_ref().map(|c| c.id)).collect::<Vec<_>>())) }; }
             let mut got_a: Vec<u64> = i.constraints.iter().map(|c| c.id).collect(); got_a.sort();
@@ -369,6 +371,12 @@ pub fn c14() -> Outcome {
             let (a_ref, r_ref): (&Vec<u64>, &Vec<u64>) = if *relax { (from, to) } else { (to, from) };
             if &got_a != a_ref || &got_r != r_ref { return Outcome { cases: n, distinct: d.len(), fail: Some(format!("sequence {s:?} step {k}: active {got_a:?} removed {got_r:?}, expected active {a_ref:?} removed {r_ref:?}")) }; }
             if *relax && expect_ok && i.removed_constraints.iter().find(|c| c.constraint.as_ref().map(|c| c.id) == Some(*id)).map(|c| c.removed_reason.clone()) != Some(format!("r{k}")) { return Outcome { cases: n, distinct: d.len(), fail: Some(format!("sequence {s:?} step {k}: reason not recorded")) }; }
+            // every removed constraint still carries the reason and parameters given when IT was relaxed
+            for rc in i.removed_constraints.iter() {
+                let cid = rc.constraint.as_ref().map(|c| c.id).unwrap_or(u64::MAX);
+                let want = reasons.get(&cid);
+                if want.map(|w| (&w.0, &w.1)) != Some((&rc.removed_reason, &rc.removed_reason_parameters)) { return Outcome { cases: n, distinct: d.len(), fail: Some(format!("sequence {s:?} step {k}: removed constraint {cid} carries reason {:?} parameters {:?}, but it was relaxed with {want:?}", rc.removed_reason, rc.removed_reason_parameters)) }; }
+            }
             // constraints themselves unchanged
             for c in i.constraints.iter().chain(i.removed_constraints.iter().filter_map(|c| c.constraint.as_ref())) {
                 if Some(c) != base.constraints.iter().find(|b| b.id == c.id) { return Outcome { cases: n, distinct: d.len(), fail: Some(format!("sequence {s:?}: constraint {} was altered", c.id)) }; }
